@@ -150,7 +150,11 @@ def single_faults(tc: bool, tier: str) -> List[List]:
 class Ctx:
     def __init__(self, tc, log_level, monitor, grace, flip):
         self.tc = tc
-        self.w = mmx.World(timecode=tc, log_level=log_level, fin_grace=grace)
+        if isinstance(log_level, str):
+            # "console-info" / "console-error": the manager keeps its default console handler (rich formatting and markup), writing into a buffer
+            self.w = mmx.World(timecode=tc, log_level=logging.INFO if log_level.endswith("info") else logging.ERROR, fin_grace=grace, console=True)
+        else:
+            self.w = mmx.World(timecode=tc, log_level=log_level, fin_grace=grace)
         self.n = 0
         self.flip = flip
         self.monitor = monitor
@@ -286,6 +290,27 @@ def apply_fault(cx: Ctx, fault: Sequence, name: str = "X", hid=None) -> List[str
         # the bystander publishes in the same round: the manager meets the dead connections on its write side
         w.clients["P"].send(P.mkframe(T1, b"wdie", timecode=tc, src_mod_id=21))
         return [name, "P"]
+    if kind == "markup":
+        # a printable-ASCII name that looks like console markup, then records about that client at every level
+        _, nmhex, via = fault
+        nm = bytes.fromhex(nmhex)
+        tc = cx.tc
+        X = position(cx, name, "accepted" if via == "connect" else "connected", hid)
+        if via == "connect":
+            X.send(_frame(tc, P.MT_CONNECT_V2, P.P_CONNECT_V2.pack(0, 0, 0, X.mid, 1, nm), src_mod_id=X.mid))
+        else:
+            X.send(_frame(tc, P.MT_CLIENT_SET_NAME, P.P_NAME.pack(nm), src_mod_id=X.mid))
+        w.settle()
+        # an error record that mentions the client (unroutable destination), a warning (second CONNECT_V2 with a taken name), its departure
+        X.send(P.mkframe(T1, b"lost", timecode=tc, src_mod_id=X.mid, dest_mod_id=P.MAX_MODULES + 1))
+        X.send(P.mkframe(T1, b"lost", timecode=tc, src_mod_id=X.mid, dest_host_id=P.MAX_HOSTS + 1))
+        w.settle()
+        Y = cx.new(name + "Y", None)
+        w.settle()
+        Y.send(_frame(tc, P.MT_CONNECT_V2, P.P_CONNECT_V2.pack(0, 0, 0, 77, 2, nm), src_mod_id=77))
+        w.settle()
+        X.send(P.mkframe(P.MT_DISCONNECT, b"", timecode=tc, src_mod_id=X.mid))
+        return [name]
     if kind == "adie":
         _, role, how, k, trig = fault
         tc = cx.tc
@@ -459,6 +484,12 @@ def plan(tier: str):
     envs = [(False, mmx.SILENT, False), (False, logging.INFO, True)]
     if tier == "thorough":
         envs += [(True, mmx.SILENT, True), (True, logging.INFO, False)]
+    # names that look like console markup, with the console handler of the default configuration in place
+    for tc in ((False,) if tier == "quick" else (False, True)):
+        for lvl in ("console-info", "console-error"):
+            for nm in (b"[/x]", b"[bold]x[/bold]", b"[/]", b"[red", b"x[/red]", b"\\[x]", b"[link=a]b", b"{x}%s%d"):
+                for via in ("connect", "setname"):
+                    cases.append((tc, lvl, True, 1, False, [["markup", nm.hex(), via]], "single", 0))
     for tc, lvl, mon in envs:
         singles = single_faults(tc, tier)
         for f in singles:
